@@ -148,18 +148,52 @@ def run(ctx):
     mark("driver(acc+doc)")
     acc = dict(zip(triples, outs[:len(triples)]))
     doc = dict(zip(triples, outs[len(triples):]))
-    sweep = Sweep(ctx, unval)
-    late_seen, known_seen = set(), set()
-    for (o, p, v) in triples:
-        is_est = o in ests
-        if not is_est and o not in funcs:
-            ctx.corr_break("tables", {"owner": o}, "owner of a translated table is not a public estimator / function of the harness")
+    jobs = []
+    for owner in sorted({o for o, _ in keys}):
+        if owner not in ests and owner not in funcs:
+            ctx.corr_break("tables", {"owner": owner}, "owner of a translated table is not a public estimator / function of the harness")
             continue
-        verdict = doc[(o, p, v)]
-        model_acc = acc[(o, p, v)]
-        if model_acc == "nokey" or verdict == "nodoc":
-            ctx.corr_break("tables", {"owner": o, "param": p}, {"model": model_acc, "doc": verdict})
-            continue
+        cases = []
+        for (o, p, v) in triples:
+            if o != owner:
+                continue
+            verdict, model_acc = doc[(o, p, v)], acc[(o, p, v)]
+            if model_acc == "nokey" or verdict == "nodoc":
+                ctx.corr_break("tables", {"owner": o, "param": p}, {"model": model_acc, "doc": verdict})
+                continue
+            run_call = not cl.is_huge(v, p) and (ctx.tier != "quick" or _selected(rs, v, verdict, model_acc))
+            cases.append((p, v, verdict, model_acc, run_call, (o, p, v) in late, (o, p, v) in known))
+        jobs.append((owner, sweep_owner, (owner, cases, X)))
+    cl.isolated(ctx, jobs)
+    for (o, p, v) in late:
+        if not ctx.counters.get(f"late-entry:{o}:{p}:{cl.value_token(v)}"):
+            ctx.corr_break("lateRejected", {"entry": [o, p, cl.value_repr(v)]}, "entry was not exercised on the real code")
+    for (o, p, v) in known:
+        if not ctx.counters.get(f"known-entry:{o}:{p}:{cl.value_token(v)}"):
+            ctx.corr_break("knownDeviations", {"entry": [o, p, cl.value_repr(v)]}, "entry was not exercised on the real code")
+    mark("sweep")
+    # ---------------------------------------------------------------- scalar tests, groups, data, before-fit
+    grid = [(l, s) for l in range(1, 7) for s in range(2, 13)]
+    scalar_outs = core.run_driver("Constraints", [f"kauri {l} {s}" for l, s in grid] + [f"mask {m} {cl.N_FEATURES}" for m in range(0, 7)])
+    check_groups_part(ctx)
+    mark("check_groups")
+    sparse = [n for n in ests if n.startswith("Sparse")]
+    cl.isolated(ctx, [("defaults", defaults_fit, (X,)),
+                      ("kauri+mask", kauri_and_mask, (X, grid, scalar_outs))]
+                + [("groups-through-fit:" + n, groups_through_fit, (n, X, int(rs.randint(2 ** 31)))) for n in sparse]
+                + [("groups-content", groups_content, (X,)), ("precomputed", precomputed_without_affinity, (X,)),
+                   ("malformed-data", malformed_data, ()), ("before-fit", before_fit, (X,))])
+    mark("kauri+mask, groups, data, before-fit")
+    return ctx.finish()
+
+
+def sweep_owner(ctx, o, cases, X):
+    """worker (forked): every (param, value, realisation) of one owner on the real code"""
+    ests = fit_lib.estimators()
+    funcs = cl.functions()
+    is_est = o in ests
+    sweep = Sweep(ctx, [])
+    for (p, v, verdict, model_acc, run_call, in_late, in_known) in cases:
         try:
             reals = cl.realise(v, o, p)
         except Exception as e:     # noqa
@@ -187,15 +221,21 @@ def run(ctx):
             if cl.is_huge(v, p):
                 ctx.count("call:skipped-huge")
                 continue
-            if ctx.tier == "quick" and not _selected(rs, v, verdict, model_acc):
+            if not run_call:
                 ctx.count("call:not-sampled(quick)")
                 continue
             how = (f"{o}(**{{{p!r}: <{label} {cl.value_repr(v)}>}}).fit(X 12x3)" if is_est
                    else f"{o}(..., {p}=<{label} {cl.value_repr(v)}>)")
+            ctx.mark(how)
             if is_est:
                 res = cl.fit_estimator(o, ests[o], p, obj, X)
             else:
                 res = cl.call_function(funcs[o][0], funcs[o][1], p, obj)
+                if res["outcome"] == "base-failed":
+                    ctx.violation(f"{o}: the well-formed reference call cannot be built: {_exc(res['exc'])}", "sweep",
+                                  {"owner": o}, expected="a default configuration works", actual=_exc(res["exc"]),
+                                  key=f"reference-call-failed:{o}", how=how)
+                    continue
                 # the decorator must be what rejects exactly the values its table rejects
                 if res["outcome"] == "raise" and cl.rejected_by_decorator(res["exc"], p) == real_acc and o not in ("gstm", "celeux_one", "celeux_two"):
                     ctx.corr_break("decorator:" + o, {"owner": o, "param": p, "value": cl.value_repr(v)},
@@ -205,39 +245,20 @@ def run(ctx):
             if res["outcome"] == "raise":
                 ctx.count("exc:" + type(res["exc"]).__name__)
             sweep.judge(o, p, v, label, obj, verdict, res, how)
-            if (o, p, v) in late:
-                late_seen.add((o, p, v))
+            if in_late:
+                ctx.count(f"late-entry:{o}:{p}:{cl.value_token(v)}")
                 ok = real_acc and res["outcome"] == "raise" and res["family"]
                 ctx.count("lateRejected:confirmed" if ok else "lateRejected:NOT-confirmed")
                 if not real_acc:
                     ctx.corr_break("lateRejected", {"owner": o, "param": p, "value": cl.value_repr(v)},
                                    "listed as passing the table, but the real table rejects it")
-            if (o, p, v) in known:
-                known_seen.add((o, p, v))
+            if in_known:
+                ctx.count(f"known-entry:{o}:{p}:{cl.value_token(v)}")
                 still = (not real_acc) and verdict == "in"
                 ctx.count("knownDeviation:still-present" if still else "knownDeviation:GONE")
                 if not still:
                     ctx.corr_break("knownDeviations", {"owner": o, "param": p, "value": cl.value_repr(v)},
                                    "listed as a deviation of the current code, but the real table now accepts it: remove the entry")
-    for t in late:
-        if t not in late_seen:
-            ctx.corr_break("lateRejected", {"entry": str(t)}, "entry was not exercised on the real code")
-    for t in known:
-        if t not in known_seen:
-            ctx.corr_break("knownDeviations", {"entry": str(t)}, "entry was not exercised on the real code")
-
-    mark("sweep")
-    # ---------------------------------------------------------------- scalar tests, groups, data, before-fit
-    kauri_and_mask(ctx, ests, X)
-    mark("kauri+mask")
-    check_groups_part(ctx, ests, X, rs)
-    mark("check_groups")
-    groups_content(ctx, ests, X)
-    precomputed_without_affinity(ctx, ests, X)
-    malformed_data(ctx, ests)
-    before_fit(ctx, ests, X)
-    mark("content+data+before-fit")
-    return ctx.finish()
 
 
 def _selected(rs, v, verdict, model_acc):
@@ -296,11 +317,29 @@ def static_checks(ctx, data, ests, funcs, keys, dockeys):
         sorted([o, p] for o, d in data["functions"].items() for p, c in d.items() if c is None)
 
 
-def kauri_and_mask(ctx, ests, X):
-    grid = [(l, s) for l in range(1, 7) for s in range(2, 13)]
-    lines = [f"kauri {l} {s}" for l, s in grid] + [f"mask {m} {cl.N_FEATURES}" for m in range(0, 7)]
-    outs = core.run_driver("Constraints", lines)
+def _mark(ctx, desc):
+    m = getattr(ctx, "mark", None)
+    if m is not None:
+        m(desc)
+
+
+def defaults_fit(ctx, X):
+    """the reference point of every sweep: each estimator fits with its default hyperparameters"""
+    for name, cls in fit_lib.estimators().items():
+        how = f"{name}(max_iter=1).fit(X 12x3)" if name != "Kauri" else "Kauri().fit(X 12x3)"
+        _mark(ctx, how)
+        res = cl.fit_estimator(name, cls, "verbose", False, X)
+        ctx.case(("defaults", name), True, None)
+        ctx.compared("defaults")
+        if res["outcome"] != "ok":
+            ctx.violation(f"{how}: the default configuration is rejected: {_exc(res['exc'])}", "defaults", {"owner": name},
+                          expected="fit completes", actual=_exc(res["exc"]), key=f"defaults-rejected:{name}", how=how)
+
+
+def kauri_and_mask(ctx, X, grid, outs):
+    ests = fit_lib.estimators()
     for (l, s), o in zip(grid, outs):
+        _mark(ctx, f"Kauri(min_samples_leaf={l}, min_samples_split={s}).fit(X 12x3)")
         res = cl.fit_estimator("KauriPair", ests["Kauri"], "min_samples_split", s, X, extra={"min_samples_leaf": l})
         raised = res["outcome"] == "raise"
         ctx.case(("kauri", l, s), True, None)
@@ -323,6 +362,7 @@ def kauri_and_mask(ctx, ests, X):
         for dtype, mask in (("bool", np.ones(m, dtype=bool)), ("bool-mixed", np.array([True, False] * 4)[:m])):
             if m and not mask.any():
                 continue
+            _mark(ctx, f"Douglas(feature_mask=<{dtype} mask of length {m}>).fit(X 12x3)")
             res = cl.fit_estimator("Douglas", ests["Douglas"], "feature_mask", mask, X)
             raised = res["outcome"] == "raise"
             ctx.case(("mask", m, dtype), True, None)
@@ -354,7 +394,7 @@ def _parse_groups(ans):
     return out
 
 
-def check_groups_part(ctx, ests, X, rs):
+def check_groups_part(ctx):
     if ctx.tier == "quick":
         spaces, ds = [(2, 2), (1, 3)], [0, 1, 2, 3, 4]
         ctx.extra["check_groups_space"] = "quick: all lists of <=2 groups of length <=2 and the single groups of length <=3, indices -1..4, d in 0..4"
@@ -406,15 +446,20 @@ def check_groups_part(ctx, ests, X, rs):
     ctx.compared("check_groups", len(cases))
     ctx.extra["check_groups_cases"] = len(cases)
     ctx.exhaustive = True     # the stated space of check_groups inputs is enumerated completely (see check_groups_space)
-    # through the estimators: the same verdict must reach the caller of fit, and a rejection must leave no model
-    sparse = [n for n in ests if n.startswith("Sparse")]
+
+
+def groups_through_fit(ctx, name, X, seed):
+    """through the estimators: the same verdict must reach the caller of fit, and a rejection must leave no model"""
+    ests = fit_lib.estimators()
+    rs = np.random.RandomState(seed)
     pool = [g for g in cl.group_lists(2, 2, lo=-1, hi=3)]
     k = 12 if ctx.tier == "quick" else 120
-    for name in sparse:
+    if True:
         idx = rs.choice(len(pool), size=k, replace=False)
         for i in idx:
             g = pool[i]
             spec = cl.cg_spec(g, cl.N_FEATURES)
+            _mark(ctx, f"{name}(groups={g!r}, max_iter=1).fit(X 12x3)")
             res = cl.fit_estimator(name, ests[name], "groups", copy.deepcopy(g), X)
             ctx.case(("fit-groups", name, repr(g)), True, None)
             ctx.compared("groups-through-fit")
@@ -435,12 +480,14 @@ def check_groups_part(ctx, ests, X, rs):
                               key="groups-through-fit:unclean", how=how)
 
 
-def groups_content(ctx, ests, X):
+def groups_content(ctx, X):
     """groups whose CONTENT has the wrong type (the table can only see that `groups` is a list)"""
+    ests = fit_lib.estimators()
     junk = [("float indices", [[0.0, 1.0]]), ("non-integral float", [[0, 1.5]]), ("strings", [["a", "b"]]), ("flat list", [0, 1]),
             ("booleans", [[True, False]]), ("None inside", [[0, None]]), ("nested deeper", [[[0, 1]]])]
     for name in [n for n in ests if n.startswith("Sparse")]:
         for what, g in junk:
+            _mark(ctx, f"{name}(groups={g!r}, max_iter=1).fit(X 12x3)")
             res = cl.fit_estimator(name, ests[name], "groups", copy.deepcopy(g), X)
             ctx.case(("groups-content", name, what), True, None)
             ctx.compared("groups-content")
@@ -455,10 +502,11 @@ def groups_content(ctx, ests, X):
                               key=f"groups-content:unclean:{what}", how=how)
 
 
-def precomputed_without_affinity(ctx, ests, X):
+def precomputed_without_affinity(ctx, X):
     """inconsistent combination: kernel/metric 'precomputed' and no matrix handed to fit (documented: "a custom kernel
     matrix must be passed to the argument y").  Kauri documents and implements a fallback (DESIGN section 12): not judged."""
     from gemclus.gemini import MMDGEMINI, WassersteinGEMINI
+    ests = fit_lib.estimators()
     cases = []
     for name, cls in ests.items():
         if name == "Kauri":
@@ -472,6 +520,7 @@ def precomputed_without_affinity(ctx, ests, X):
             cases.append((name, {"gemini": WassersteinGEMINI(metric="precomputed")}, "gemini=WassersteinGEMINI(metric='precomputed')"))
     for name, kw, desc in cases:
         m = ests[name](max_iter=1, **kw)
+        _mark(ctx, f"{name}({desc}, max_iter=1).fit(X 12x3)  # y=None")
         try:
             with cl.quiet_io(), cl.time_limit(30):
                 m.fit(X)
@@ -491,7 +540,8 @@ def precomputed_without_affinity(ctx, ests, X):
                           expected="ValueError/TypeError, no fitted model", actual=[_exc(exc), learned], key="precomputed-without-y", how=how)
 
 
-def malformed_data(ctx, ests):
+def malformed_data(ctx):
+    ests = fit_lib.estimators()
     for name, cls in ests.items():
         params = [p for p in inspect.signature(cls.__init__).parameters if p != "self"]
         for what, Xbad in cl.malformed_catalogue():
@@ -500,6 +550,7 @@ def malformed_data(ctx, ests):
                 continue
             kw = {"max_iter": 1} if "max_iter" in params else {}
             m = cls(**kw)
+            _mark(ctx, f"{name}(max_iter=1).fit(<{what}>)")
             try:
                 with cl.quiet_io(), cl.time_limit(30):
                     m.fit(copy.deepcopy(Xbad))
@@ -520,8 +571,9 @@ def malformed_data(ctx, ests):
                               expected="ValueError/TypeError, no fitted model", actual=[_exc(exc), learned], key=f"data:unclean:{what}", how=how)
 
 
-def before_fit(ctx, ests, X):
+def before_fit(ctx, X):
     from gemclus.tree import print_kauri_tree
+    ests = fit_lib.estimators()
     for name, cls in ests.items():
         calls = [("predict", lambda m: m.predict(X)), ("predict_proba", lambda m: m.predict_proba(X)), ("score", lambda m: m.score(X))]
         if name == "Douglas":
@@ -533,6 +585,7 @@ def before_fit(ctx, ests, X):
             if not hasattr(m, what) and what != "print_kauri_tree":
                 ctx.count(f"before-fit:no-such-method:{what}")
                 continue
+            _mark(ctx, f"{name}().{what}(X)")
             try:
                 with cl.quiet_io(), cl.time_limit(30):
                     r = f(m)
